@@ -12,6 +12,7 @@ func init() {
 	vHarnesses["VerifC01Canary"] = VerifC01Canary
 	vHarnesses["VerifC01Deep"] = VerifC01Deep
 	vHarnesses["VerifC01Seq"] = VerifC01Seq
+	vHarnesses["VerifC01Kinds"] = VerifC01Kinds
 }
 
 // VerifC01Seq: longer arrays (up to N) whose elements are numbers or one-element arrays, so
@@ -154,4 +155,39 @@ func VerifC01Canary() {
 	p, err := vClone(a).Patch(d)
 	vAssert(err == nil, "patch failed")
 	vAssert(p.Equals(a), "canary: patched equals the source")
+}
+
+// VerifC01Kinds: arrays whose elements range over every kind of value (numbers, the strings "" and "a",
+// booleans, null, empty and one-element arrays and objects), so that values of
+// different kinds with similar content meet in one list / set / bag.
+func VerifC01Kinds() {
+	k := vOptChoice(vParam("OPTS", 0x07))
+	n := vParam("N", 1)
+	mk := func() jsonArray {
+		a := make(jsonArray, vChoice(n+1))
+		for i := range a {
+			switch vChoice(9) {
+			case 0:
+				a[i] = vNum()
+			case 1:
+				a[i] = jsonString("")
+			case 2:
+				a[i] = jsonString("a")
+			case 3:
+				a[i] = jsonBool(vBool())
+			case 4:
+				a[i] = jsonNull(nil)
+			case 5:
+				a[i] = jsonArray{}
+			case 6:
+				a[i] = jsonObject{}
+			case 7:
+				a[i] = jsonArray{vNum()}
+			default:
+				a[i] = jsonObject{"k": vNum()}
+			}
+		}
+		return a
+	}
+	vC01Check(mk(), mk(), k, "c01.kinds")
 }
